@@ -37,16 +37,18 @@ def read_frames(filename):
 class SiteOrder(OrderParameter):
     """Order parameter = lattice site (optionally + velocity as 2nd CV)."""
 
-    def __init__(self, velocity=False):
+    def __init__(self, velocity=False, offset=0.0):
         super().__init__(description="lattice site", velocity=bool(velocity))
         self.use_vel = bool(velocity)
+        self.offset = float(offset)
 
     def calculate(self, system):
         if self.use_vel:
             # velocity dependent variant: x + 0.25*v (still off the half
             # integers): used by the C12 monitors
-            return [float(system.pos[0][0]) + 0.25 * float(system.vel[0][0])]
-        return [float(system.pos[0][0])]
+            return [float(system.pos[0][0]) + 0.25 * float(system.vel[0][0])
+                    + self.offset]
+        return [float(system.pos[0][0]) + self.offset]
 
 
 class _LatBase(EngineBase):
